@@ -123,7 +123,7 @@ def Conforms (ext : Bool) (toks : List Tok) (s : Bytes) : Prop :=
 /-- Flag value of a group: bit `7 - i` set iff token `i` is a reference. -/
 def flagOf : Nat → List Tok → Nat
   | _, [] => 0
-  | i, t :: ts => (if t.isRef then 2 ^ (7 - i) else 0) + flagOf (i + 1) ts
+  | i, t :: ts => (if t.isRef then 2 ^ (7 - i) else 0) ||| flagOf (i + 1) ts
 
 /-- Encode the groups; `junk` supplies the unused low bits of the last flag byte. -/
 def encodeGroups (ext : Bool) (junk : UInt8) : Nat → List Tok → Bytes
@@ -133,7 +133,7 @@ def encodeGroups (ext : Bool) (junk : UInt8) : Nat → List Tok → Bytes
     let g := toks.take 8
     let rest := toks.drop 8
     let f := flagOf 0 g
-    let f := if rest.isEmpty then f + junk.toNat % 2 ^ (8 - g.length) else f
+    let f := if rest.isEmpty then f ||| junk.toNat % 2 ^ (8 - g.length) else f
     UInt8.ofNat f :: g.flatMap (tokBytes ext) ++ encodeGroups ext junk fuel rest
 
 def encode (ext : Bool) (junk : UInt8) (toks : List Tok) : Bytes :=
@@ -142,13 +142,13 @@ def encode (ext : Bool) (junk : UInt8) (toks : List Tok) : Bytes :=
 /-! ### Spec parser (independent decoder used as oracle) -/
 
 inductive ParseErr
-  | empty | shortHeader | unknownType | truncated | refBeforeStart | leftover | overshoot
+  | empty | shortHeader | unknownType | truncated | refBeforeStart | leftover | overshoot | nonCanonical
   deriving DecidableEq, Repr
 
 def ParseErr.name : ParseErr → String
   | .empty => "empty" | .shortHeader => "short-header" | .unknownType => "unknown-type"
   | .truncated => "truncated" | .refBeforeStart => "ref-before-start" | .leftover => "leftover-bytes"
-  | .overshoot => "length-overshoot"
+  | .overshoot => "length-overshoot" | .nonCanonical => "non-canonical-extended-length"
 
 /-- Parse one token whose flag bit is `isRef`; `have_` = bytes produced so far. -/
 def parseTok (ext : Bool) (isRef : Bool) (have_ : Nat) (s : Bytes) : Except ParseErr (Tok × Bytes) :=
@@ -212,6 +212,8 @@ def parse (s : Bytes) : Except ParseErr (Bool × Nat × List Tok) :=
       match body with
       | a :: b :: c :: d :: body =>
         let n := ofLe [a, b, c, d]
+        -- the extended word is for lengths the 24-bit field cannot hold (and for 0)
+        if n ≠ 0 ∧ n < 2 ^ 24 then .error .nonCanonical else
         (parseGroups ext n (body.length + 1) 0 body []).map (fun toks => (ext, n, toks))
       | _ => .error .truncated
     else (parseGroups ext n (body.length + 1) 0 body []).map (fun toks => (ext, n, toks))
